@@ -73,14 +73,10 @@ func (t *_ticker) run() {
 		select {
 
 		case <-t.resetch:
-			if !timer.Stop() {
-				// the timer may have fired and been drained already
-				select {
-				case <-timer.C:
-				default:
-				}
-			}
-			timer.Reset(t.nextPeriod())
+			// start over with a fresh timer: the old one may have fired already
+			// (drained or not), and its expiry may even still be in flight
+			timer.Stop()
+			timer = time.NewTimer(t.nextPeriod())
 			nextch = nil
 
 		case <-t.stopch:
